@@ -153,7 +153,7 @@ def tyAttr (ty : Ty) (name : String) : V Nat :=
   match ty with
   | .basic t => newAttr (.basic t.text)
   | .fixed kw n _ => do
-    if natOfDigits n.text > 2 ^ 63 - 1 then
+    if natOfDigits n.text > 2 ^ 31 - 1 then
       addDiag kw.line ("Length of fixed string " ++ name ++ " is out of range: " ++ n.text)
     if kw.kind = .zcharLb then do
       let p ← newPad { ch := "'\x00'", left := false }
@@ -501,7 +501,9 @@ def visitCst (c : Cst) : V Unit := do
           let attr := (findMeta s r.typ.text).bind (·.attr)
           if (findMeta s r.typ.text).isNone then
             addDiag r.typ.line ("Unknown MetaData type " ++ r.typ.text ++ " for " ++ r.name.text)
-          addMeta { name := r.name.text, attr, desc := docOf r.doc, line := r.typ.line }
+          -- a reference to an undeclared entry has no type: it is diagnosed and not registered
+          if attr.isSome then
+            addMeta { name := r.name.text, attr, desc := docOf r.doc, line := r.typ.line }
     | _ => pure ()
   -- options
   for d in c.defs do
